@@ -205,7 +205,14 @@ def check(c, out):
             if U.same(lo, ro):
                 return None
             # SymPy's own Sum.doit() evaluates a series once its limits are closed: complete both sides
-            return None if U.same(lo.doit(), ro.doit()) else \
+            if U.same(lo.doit(), ro.doit()):
+                return None
+            # still different trees (SymPy evaluates numbers differently along the two routes): the
+            # property is about the value then
+            ne = U.numeric_equal(lo, ro)
+            if ne is None:
+                raise U.Undecided
+            return None if ne else \
                 "hypotheses of xreplace_doit_commute hold but xreplace-then-doit != doit-then-xreplace on the implementation"
         return "?"
     try:
